@@ -202,6 +202,10 @@ struct filler<1>
         // assigning zero here made an accumulating dense fill lose the counts gathered so far
         // (the keys may be negative: divide by a signed width, not by the unsigned bin_width)
         auto const width = static_cast<std::ptrdiff_t>(bin_width);
+        // an empty box (lower > upper) has no bins: the unsigned difference in the loop condition
+        // would never fall below bin_width (255 bins for an 8 bit key, no return for an int key)
+        if (std::get<0>(upper) < std::get<0>(lower))
+            return;
         for (auto i = std::get<0>(lower); static_cast<std::size_t>(std::get<0>(upper) - i) >= bin_width; i += bin_width)
         {
             static_cast<void>(hist(i / width));
